@@ -8,6 +8,23 @@ ROOT = os.path.dirname(os.path.dirname(os.path.abspath(__file__)))
 REPLAY_BIN = os.path.join(ROOT, ".cache", "target-replay", "release", "vx-replay")
 
 
+def run_probe(fn):
+    """Runs the native probe search for one function name on the real compiled code. Returns the failing-input record or None."""
+    try:
+        subprocess.run(["cargo", "build", "--release", "--offline"], cwd=os.path.join(ROOT, "replay"), capture_output=True, timeout=900,
+                       env=dict(os.environ, CARGO_NET_OFFLINE="true"))
+        p = subprocess.run([REPLAY_BIN, "probe", fn], capture_output=True, text=True, timeout=600)
+        for line in p.stdout.split("\n"):
+            line = line.strip()
+            if line.startswith("{"):
+                j = json.loads(line)
+                if j.get("holds") is False:
+                    return j
+    except Exception:  # noqa
+        return None
+    return None
+
+
 def make_replay(pid, v, tier):
     """Writes replays/<pid>-<obligation>.json. Returns (path, failing_input_found)."""
     safe = re.sub(r"[^A-Za-z0-9_.-]", "_", v["obligation"])
